@@ -54,7 +54,13 @@ def read_at(path, off, bgzip):
 
 
 def run_case(case):
+    from gaftools.cli.sort import run_sort as _rs
+
     with core.workdir() as d:
+        after_failure = len(case["gaf"]) % 4 == 0
+        if after_failure:
+            # an earlier call in this process that fails (mistyped GAF path) must not affect the next one
+            core.call(_rs, d + "/g.gfa", d + "/no-such-file.gaf", outgaf=d + "/x.gaf")
         res, out, out_path, ind_path = c09.run_sort(case, d)
         core.check(res[0] == "ok", "sort did not complete: %s", res)
         core.check(out is not None, "sorted GAF missing or incomplete")
@@ -89,6 +95,8 @@ def run_case(case):
     exp = [c09.expected_tags(nodes, l) for l in case["gaf"]]
     cl = c09.classes_of(case, nodes, exp)
     cl.append("outind" if case.get("outind") else "default_gsi")
+    if after_failure:
+        cl.append("after_a_failed_call")
     if case["bgzip_out"] and nblocks >= 2:
         cl.append("bgzf_output_blocks>=2")
     if len(case["gaf"]) == 1:
